@@ -494,7 +494,7 @@ def run(prog, tier, extra=None):
         if predicted is None or not ok:
             res.not_decided.append("Transaction::get_serialized_size: predictor or writer does not normalise")
         else:
-            got = {k[1][2].replace("self.", ""): int(v) for k, v in predicted.t.items() if k[0] == "len"}
+            got = {k[1][2].split("#")[0].replace("self.", ""): int(v) for k, v in predicted.t.items() if k[0] == "len"}
             exp = dict(expected)
             if int(predicted.c) != const or got != exp:
                 res.add(Finding(R4, "C09.size-predictor|Transaction", "Transaction::get_serialized_size predicts %d + %s but serialize_for_net writes %d + %s"
